@@ -362,6 +362,9 @@ class BPTC19696:
             is_reserved,
             is_hamming,
         ) in BPTC19696.INTERLEAVING_INDICES.items():
+            if row < 1:
+                # R(3) has no place in the table, it is kept as received
+                continue
             bits[data_index if deinterleaved else interleave_index] = table[row - 1][
                 column
             ]
